@@ -34,6 +34,35 @@ def run(tier):
                           % (m['level'], m['mode'], m['W'], m['name'], m['in_len'], len(got), len(exp), j,
                              got[j] if j < len(got) else None, exp[j] if j < len(exp) else None),
                           {'engine': 'lbzx-batch', 'input': m, 'got': got[:20], 'expected': exp[:20]})
+    # the same rule for FILE operands (the corpus above is fed through standard input): small files whose run-length
+    # coding is longer than the file, at several levels, both modes
+    import os, subprocess, hashlib
+    from lib import cli, bzref, build, inputs
+    rp = build.tool('refpack', ['ref/refpack.c'])
+    fcases, fmeta = [], []
+    small = [('AAAA', b'AAAA'), ('E40000', inputs.kind('E', 40000)), ('E90000', inputs.kind('E', 90000)), ('E199000', inputs.kind('E', 199000)),
+             ('N50000', inputs.kind('N', 50000)), ('runs5', b'xxxxx' * 3000)]
+    for nm, data in small:
+        for lv in (1, 2, 9):
+            for mode in ([], ['-u']):
+                fcases.append({'argv0': 'lbzip2', 'args': ['-n2', '-%d' % lv, '-c'] + mode + ['f'], 'files': {'f': ('f', data, 0o644)}})
+                fmeta.append((nm, data, lv, mode))
+    fdir = common.scratch('c04f')
+    for (r, fs, so), (nm, data, lv, mode) in zip(cli.run_cases(fcases), fmeta):
+        pth = os.path.join(fdir, hashlib.sha1(data).hexdigest())
+        open(pth, 'wb').write(data)
+        cap = lv * 100000
+        exp = [tuple(int(v) for v in l.split())[:2] for l in
+               subprocess.run([rp, pth, str(cap), '0' if mode else str(cap)], stdout=subprocess.PIPE).stdout.decode().split('\n') if l]
+        ins = bzref.inspect(so) if so else {}
+        got = [(b['rle_len'], b['stored_crc']) for st_ in ins.get('streams', []) for b in st_['blocks']] if ins.get('valid') else None
+        n += 1
+        distinct.add((hashlib.sha1(data).hexdigest(), lv, ' '.join(mode), 'FILE'))
+        if got != exp:
+            chk.violation('C04|file|%s|L%d|%s' % (nm, lv, ' '.join(mode)),
+                          'lbzip2 -%d %s -c FILE on %s (%d bytes): blocks %s, reference packing %s' % (lv, ' '.join(mode), nm, len(data), got and got[:6], exp[:6]),
+                          {'engine': 'lbzx-batch', 'args': ['-n2', '-%d' % lv, '-c'] + mode + ['f'], 'input': nm})
+    chk.leg('whole-program-file-operand', cases=len(fcases))
     chk.leg('whole-program', streams=n, distinct_inputs=len(distinct), multi_block_inputs=multi)
     chk.cov.update({'evaluations': n, 'distinct_nontrivial': len(distinct),
                     'rule': 'leg (b): every (input, level, mode) of the compression corpus; oracle: list of (RLE size, CRC) per block == reference greedy packer. '})
